@@ -12,3 +12,4 @@ def run(ck):
     filt.r_axis_consistency(ck, P, 'C08-R5')
     sampling.r6_coordinate_siblings(ck, P)
     filt.r7_signed_totals(ck, P, 'C08-R7')
+    filt.r8_coefficient_product_width(ck, P, 'C08-R8')
